@@ -1,0 +1,40 @@
+//go:build verif
+
+// Machine-checked contracts for package hclsyntax (see /verif/DESIGN.md).
+// This file contains comments only; it is compiled only with the "verif"
+// build tag and changes nothing in the package.
+
+package hclsyntax
+
+// verif:unit U2 props=C14
+
+// Position advance over a byte run, as C14 states it: walk the grapheme
+// clusters left to right; a newline cluster starts a new line at column 1,
+// any other cluster advances the column by one.
+// verif:specfunc advLine(l int, c int, o ref, n int) int
+// verif:specfunc advCol(l int, c int, o ref, n int) int
+// verif:axiom advEmpty: forall l int, c int, o ref :: { advLine(l, c, o, 0) } advLine(l, c, o, 0) == l && advCol(l, c, o, 0) == c
+// verif:axiom advStepNL: forall l int, c int, o ref, n int :: { advLine(l, c, o, n) } n > 0 && 0 < clusterLen(o, n) && clusterLen(o, n) <= n && isNLCluster(o, n) ==> advLine(l, c, o, n) == advLine(l + 1, 1, adv(o, clusterLen(o, n)), n - clusterLen(o, n)) && advCol(l, c, o, n) == advCol(l + 1, 1, adv(o, clusterLen(o, n)), n - clusterLen(o, n))
+// verif:axiom advStepOther: forall l int, c int, o ref, n int :: { advLine(l, c, o, n) } n > 0 && 0 < clusterLen(o, n) && clusterLen(o, n) <= n && !isNLCluster(o, n) ==> advLine(l, c, o, n) == advLine(l, c + 1, adv(o, clusterLen(o, n)), n - clusterLen(o, n)) && advCol(l, c, o, n) == advCol(l, c + 1, adv(o, clusterLen(o, n)), n - clusterLen(o, n))
+
+// verif:func (*tokenAccum).emitToken
+//@ requires bounds: 0 <= startOfs && startOfs <= endOfs && endOfs <= len(f.Bytes)
+//@ assigns f, f.Tokens[*]
+//@ ensures frame: f.Filename == old(f.Filename) && f.Bytes == old(f.Bytes) && f.StartByte == old(f.StartByte)
+//@ ensures one: len(f.Tokens) == old(len(f.Tokens)) + 1
+//@ ensures kept: forall k int :: 0 <= k && k < old(len(f.Tokens)) ==> f.Tokens[k] == old(f.Tokens[k])
+//@ ensures type: f.Tokens[len(f.Tokens)-1].Type == ty
+//@ ensures bytes: f.Tokens[len(f.Tokens)-1].Bytes === f.Bytes[startOfs:endOfs]
+//@ ensures file: f.Tokens[len(f.Tokens)-1].Range.Filename == f.Filename
+//@ ensures startByte: f.Tokens[len(f.Tokens)-1].Range.Start.Byte == startOfs + f.StartByte
+//@ ensures endByte: f.Tokens[len(f.Tokens)-1].Range.End.Byte == endOfs + f.StartByte
+//@ ensures startLine: f.Tokens[len(f.Tokens)-1].Range.Start.Line == old(f.Pos.Line)
+//@ ensures startCol: f.Tokens[len(f.Tokens)-1].Range.Start.Column == old(f.Pos.Column) + (startOfs + f.StartByte - old(f.Pos.Byte))
+//@ ensures endLine: f.Tokens[len(f.Tokens)-1].Range.End.Line == advLine(f.Tokens[len(f.Tokens)-1].Range.Start.Line, f.Tokens[len(f.Tokens)-1].Range.Start.Column, org(f.Bytes[startOfs:endOfs]), endOfs - startOfs)
+//@ ensures endCol: f.Tokens[len(f.Tokens)-1].Range.End.Column == advCol(f.Tokens[len(f.Tokens)-1].Range.Start.Line, f.Tokens[len(f.Tokens)-1].Range.Start.Column, org(f.Bytes[startOfs:endOfs]), endOfs - startOfs)
+//@ ensures pos: f.Pos == f.Tokens[len(f.Tokens)-1].Range.End
+//@ loop 1 invariant 0 <= len(b) && len(b) <= endOfs - startOfs
+//@ loop 1 invariant end.Byte == endOfs + f.StartByte
+//@ loop 1 invariant advLine(end.Line, end.Column, org(b), len(b)) == advLine(start.Line, start.Column, org(old(f.Bytes)[startOfs:endOfs]), endOfs - startOfs)
+//@ loop 1 invariant advCol(end.Line, end.Column, org(b), len(b)) == advCol(start.Line, start.Column, org(old(f.Bytes)[startOfs:endOfs]), endOfs - startOfs)
+//@ loop 1 decreases len(b)
